@@ -38,6 +38,13 @@ def _where(tb):
     return '?'
 
 
+# replacement literals of the `kind` mutation: every kind, and sizes at which int(), float(), re or len() behave differently
+KIND_LITERALS = ['"s"', '1', '-1', '1.5', 'true', 'null', 'tag', '[1]', '{"a": 1}', '2e400', '99999999999999999999',
+                 '1' + '0' * 308, '1' + '0' * 309, '-1' + '0' * 400, '1' + '0' * 1000, '1' + '0' * 4299, '1' + '0' * 4400,
+                 '1e308', '1e309', '-1e999', '1e-999', '1e99999999999', '1' + '0' * 400 + '.5', '"%s"' % ('a' * 5000),
+                 '"%s"' % ('9' * 5000), '"a{99999999999999}"', '"%s"' % ('(' * 200)]
+
+
 class _Timeout(BaseException):       # not an Exception: no `except Exception` of the code under test may swallow it
     def __init__(self, where, clock):
         BaseException.__init__(self, where)
@@ -168,7 +175,7 @@ def mutate_text(rng, text, other_text=None):
             lits = [j for j, t in enumerate(toks) if re.match(r'^(-?\d|"|true$|false$|null$)', t)]
             if lits:
                 j = rng.choice(lits)
-                toks[j] = rng.choice(['"s"', '1', '-1', '1.5', 'true', 'null', 'tag', '[1]', '{"a": 1}', '2e400', '99999999999999999999'])
+                toks[j] = rng.choice(KIND_LITERALS)
         elif op == 'indent':
             nls = [j for j, t in enumerate(toks) if t.startswith('\n')]
             if nls:
@@ -351,7 +358,13 @@ def suite_cli(ck, n):
             with open(fp, 'w', encoding='utf-8') as fh:
                 fh.write(t)
             paths.append(fp)
-        direct = classify([(p, t) for p, (_q, t) in zip(paths, files)])
+        # the command line reads the files in text mode (universal newlines: a lone '\r' arrives as '\n'); the
+        # in-process reference must see the same text
+        as_read = []
+        for fp in paths:
+            with open(fp, encoding='utf-8') as fh:
+                as_read.append(fh.read())
+        direct = classify(list(zip(paths, as_read)))
         argv = ['stone', be, os.path.join(sd, 'out')] + paths
         err = io.StringIO()
         code = None
